@@ -115,8 +115,14 @@ COPIED = re.compile(r" as std::iter::Iterator>::(copied|cloned)::<")
 COLLECT = re.compile(r" as std::iter::Iterator>::collect::<(.*)>$")
 
 
+STRICT_ENTRY = re.compile(r"^<seq::Seq<A> as std::convert::TryFrom<&('\w+ )?\[u8\]>>::try_from$")
+
+
 def strict_parse_of(cfg, t):
     """t is Collect<Result<Seq<A>,ParseBioError>>(Map(bytes(X), strict closure)); returns X or None, description"""
+    if isinstance(t, tuple) and t[0] == "call" and STRICT_ENTRY.match(t[1]) and len(t[2]) == 1:
+        # handed to the byte-slice entry point of the strict parser itself (C01 S-parse decides that entry point)
+        return t[2][0], "strict (delegated to %s)" % t[1]
     m = COLLECT.search(t[1]) if isinstance(t, tuple) and t[0] == "call" else None
     if not m or m.group(1) != "std::result::Result<seq::Seq<A>, error::ParseBioError>":
         return None, "not a collect into Result<Seq<A>, ParseBioError>: " + show(t)[:120]
